@@ -1064,7 +1064,6 @@ class CFile:
             tops = r.get("inner", []) if r.get("kind") == "TranslationUnitDecl" else [r]
             for n in tops:
                 if n.get("kind") == "FunctionDecl" and self._in_main(n):
-                    self.norm_control += _split_decl_inits(n)
                     self.norm_control += _normalise_control(n)
         for r in roots:
             _normalise(r)
@@ -1075,6 +1074,7 @@ class CFile:
             for n in tops:
                 if n.get("kind") == "FunctionDecl" and self._in_main(n):
                     self.norm_inlined += _induction_pointers(n)
+                    self.norm_control += _split_decl_inits(n)
         _number(roots)
         self.norm_propagated = 0
         for r in roots:
